@@ -9,7 +9,7 @@ import (
 
 var staticPaths = []string{"/", "/a", "/b", "/a/b", "/s/x.html", "/u", "/blog"}
 var regularPats = []string{"/u/{id}", "/u/{id}/p/{pid}", "/blog/{name}/{n:\\d+}", "/v/{id:\\d+}", "/u/{id}/edit", "/f/{file:.+}", "/blog/{name}"}
-var irregularPats = []string{"/{x}", "/{lang:[a-z]{2}}/docs", "/opt[/{a}]", "/o[/{a}[/{b}]]", "/{x}/{y}"}
+var irregularPats = []string{"/{x}", "/{lang:[a-z]{2}}/docs", "/opt[/{a}]", "/o[/{a}[/{b}]]", "/{x}/{y}", "/about[.html]", "/s/idx[/all]"}
 
 var anyVals = []string{"1", "2", "7", "bob", "x.y"}
 var numVals = []string{"1", "2", "42"}
@@ -100,6 +100,7 @@ type ShapeCfg struct {
 	Caps         []int
 	FallbackOpts bool // may set NotFound / NotAllowed handlers, HandleMethodNotAllowed, fallback route
 	LongChains   bool // may build chains of 30..62 handlers
+	NoRootGroups bool // never use "/" or "" as a group prefix (request paths stay in normal form)
 	Scripts      func(g *Gen, id string, kind byte) []Action // nil: default scripts
 }
 
@@ -210,13 +211,19 @@ func (g *Gen) GenShape(cfg ShapeCfg) {
 	sc.Program = prog
 }
 
-var groupPrefixes = []string{"/api", "/v1", "/g", "/u"}
+var groupPrefixes = []string{"/api", "/v1", "/g", "/u", "/api", "/v1", "/", ""}
 
 func (g *Gen) genGroup(cfg *ShapeCfg, prefix string, depth, maxRoutes int) RegOp {
 	rng := g.rng
 	op := RegOp{Op: "group", Path: rng.Pick(groupPrefixes)}
+	if cfg.NoRootGroups && len(op.Path) < 2 {
+		op.Path = "/g"
+	}
 	op.MW = g.newIDs('m', rng.Intn(3), cfg)
 	full := prefix + op.Path
+	if op.Path == "" {
+		full = prefix + "/" // Group("") is registered like Group("/")
+	}
 	n := rng.Range(1, 3)
 	for i := 0; i < n; i++ {
 		switch {
